@@ -117,3 +117,14 @@ package main
 //@   ensures (result.IPv6 != nil) == (!bn.PeerAddressIP.IsIPv4() || bn.IPv6 != nil)
 //@   ensures result.IPv4 != nil ==> spec_afOK(bn.IPv4, result.IPv4, bn)
 //@   ensures result.IPv6 != nil ==> spec_afOK(bn.IPv6, result.IPv6, bn)
+
+// A neighbor entry is looked up among the running sessions by its own address
+// and VRF; without a running session the new configuration is added, with one
+// it is that session's configuration the new one is compared with.
+//@ contract (*bgpConfigurator).configureSession
+//@   props C36
+//@   nosafety
+//@   requires c != nil && bn != nil && bg != nil
+//@   call GetPeerConfig args vv *vrf.VRF, a *bnet.IP vars v *vrf.VRF requires vv == v && a == bn.PeerAddressIP
+//@   call reconfigureModifiedSession args n *config.BGPNeighbor, g *config.BGPGroup, nc *bgpserver.PeerConfig, oc *bgpserver.PeerConfig vars newCfg *bgpserver.PeerConfig, oldCfg *bgpserver.PeerConfig requires n == bn && g == bg && nc == newCfg && oc == oldCfg && oldCfg != nil
+//@   call AddPeer args cfg bgpserver.PeerConfig vars newCfg *bgpserver.PeerConfig, oldCfg *bgpserver.PeerConfig requires oldCfg == nil && cfg.PeerAddress == newCfg.PeerAddress && cfg.VRF == newCfg.VRF && cfg.TTL == newCfg.TTL && cfg.PeerAS == newCfg.PeerAS && cfg.LocalAS == newCfg.LocalAS && cfg.IPv4 == newCfg.IPv4 && cfg.IPv6 == newCfg.IPv6
